@@ -536,6 +536,11 @@ func performIDPRequest(log telemetry.Logger, client *http.Client, uri string, fo
 		log.Error("error unmarshalling tokens response", err)
 		return nil, codes.Internal
 	}
+	if bodyTokens == nil {
+		// a literal JSON null unmarshals without error and leaves a nil pointer behind
+		log.Error("error unmarshalling tokens response", errors.New("tokens response is null"))
+		return nil, codes.Internal
+	}
 
 	return bodyTokens, codes.OK
 }
